@@ -124,4 +124,13 @@ KeptClauses(view, after, before) ==
       stay == {p \in PathsOf(view) \cap PathsOf(before) : p \notin ch /\ p \notin ex /\ p \notin gone}
   IN IF \A p \in stay : Has(after, p) /\ At(after, p).ino = At(before, p).ino /\ At(after, p).c = At(before, p).c
      THEN {} ELSE {"unchangedEntryRewritten"}
+
+\* ... and every entry whose identity changed is rewritten: it exists afterwards as another
+\* inode (old and new inode coexist at the rename, so inode reuse cannot mask this), except
+\* directories that stay directories (metadata is re-applied in place)
+RewrittenClauses(view, after, before) ==
+  LET ch == Changed(view, before) \ Exception(view, before)
+      must == {p \in ch : Has(before, p) /\ ~(At(view, p).t = "dir" /\ At(before, p).t = "dir")}
+  IN IF \A p \in must : Has(after, p) /\ At(after, p).ino # At(before, p).ino
+     THEN {} ELSE {"changedEntryNotRewritten"}
 =============================================================================
